@@ -370,7 +370,7 @@ func (c *ctxT) faultCorpus(cfg cfgT) {
 // calls.
 func (c *ctxT) multiSession(rnd *common.Rand, caseNo int) {
 	r := c.r
-	cfg := cfgs[caseNo%2]
+	cfg := cfgs[caseNo%len(cfgs)]
 	nS := 2 + rnd.Intn(3)
 	type job struct {
 		cl     call
@@ -395,7 +395,7 @@ func (c *ctxT) multiSession(rnd *common.Rand, caseNo int) {
 				kind := map[string]string{"enc": "note", "iq": "iq"}[entry]
 				cl = bigCall(entry, kind, mk, 150+rnd.Intn(700))
 			} else {
-				cl = withMarker(call{entry: "send", form: "reader", toks: genElement(rnd, 0, true, 2000+rnd.Intn(8000))}, mk)
+				cl = withMarker(noForeign(cfg, call{entry: "send", form: "reader", toks: genElement(rnd, 0, true, 2000+rnd.Intn(8000))}), mk)
 			}
 			jobs[i] = append(jobs[i], &job{cl: cl, mk: mk})
 		}
